@@ -605,3 +605,118 @@ fn c11_mark_page_allocated_n13() {
 fn c11_mark_page_allocated_n16() {
     mark_case::<16>();
 }
+
+
+// ---- C14: the region tracker's allocation path --------------------------------------------------
+
+use crate::tree_store::page_store::bitmap::verif_kani as bmh;
+
+fn tracker_full(t: &RegionTracker, o: usize) -> bool {
+    let b = &t.verif_trackers()[o];
+    b.verif_word(b.verif_height() - 1, 0) & 1 != 0
+}
+
+/// invariant T for a one-region database: if the region has an aligned free run of order >= o,
+/// tracker[o] does not mark it full (the tracker is optimistic, never pessimistic)
+fn t_inv(t: &RegionTracker, free: u128, n: u32) -> bool {
+    let mut ok = true;
+    let mut o = 0u8;
+    while o <= 4 {
+        let mut has = false;
+        let mut k = o;
+        while k <= 4 {
+            if bh::has_aligned_run(free, n, k) {
+                has = true;
+            }
+            k += 1;
+        }
+        if has && tracker_full(t, o as usize) {
+            ok = false;
+        }
+        o += 1;
+    }
+    ok
+}
+
+fn retry_case<const N: u32>() {
+    let h = hh::any_two_valid_slots_header(0);
+    let w = bh::any_words();
+    let a = bh::mk_alloc(N, 16, &w);
+    let pre = bh::r_inv(&a, N, 16);
+    kani::assume(pre.is_some());
+    let pre = pre.unwrap();
+    // tracker: 5 orders x 1 region, arbitrary bits, with the real padded shape (capacity MAX_REGIONS)
+    let tw: [u64; 5] = kani::any();
+    let tracker = RegionTracker::verif_raw(alloc::vec![
+        bmh::mk_padded(1, MAX_REGIONS_CAP, &[tw[0], u64::MAX, u64::MAX]),
+        bmh::mk_padded(1, MAX_REGIONS_CAP, &[tw[1], u64::MAX, u64::MAX]),
+        bmh::mk_padded(1, MAX_REGIONS_CAP, &[tw[2], u64::MAX, u64::MAX]),
+        bmh::mk_padded(1, MAX_REGIONS_CAP, &[tw[3], u64::MAX, u64::MAX]),
+        bmh::mk_padded(1, MAX_REGIONS_CAP, &[tw[4], u64::MAX, u64::MAX]),
+    ]);
+    kani::assume(t_inv(&tracker, pre, N));
+    let mut state = InMemoryState {
+        header: h,
+        allocators: Some(Allocators {
+            region_tracker: tracker,
+            region_allocators: alloc::vec![a],
+        }),
+        read_from_secondary: false,
+    };
+    let order: u8 = kani::any();
+    kani::assume(order <= 4);
+    let r = match order {
+        0 => TransactionalMemory::allocate_helper_retry(&mut state, 0, false),
+        1 => TransactionalMemory::allocate_helper_retry(&mut state, 1, false),
+        2 => TransactionalMemory::allocate_helper_retry(&mut state, 2, false),
+        3 => TransactionalMemory::allocate_helper_retry(&mut state, 3, false),
+        _ => TransactionalMemory::allocate_helper_retry(&mut state, 4, false),
+    };
+    let al = state.allocators.as_ref().unwrap();
+    let post = bh::r_inv(&al.region_allocators[0], N, 16);
+    assert!(post.is_some(), "R holds after the allocation attempt");
+    let post = post.unwrap();
+    match r {
+        Ok(Some(p)) => {
+            assert!(p.region == 0 && p.page_order == order);
+            let bm = bh::block_mask(p.page_index, order);
+            assert!(pre & bm == bm && post == pre & !bm, "handed out exactly one entirely free block");
+            kani::cover!(true, "allocated");
+        }
+        Ok(None) => {
+            assert!(!bh::has_aligned_run(pre, N, order), "refused only when the region has no aligned free block of that size");
+            assert!(post == pre, "refusal leaves the allocator unchanged");
+            kani::cover!(true, "refused: region really full at this order");
+        }
+        Err(_) => assert!(false),
+    }
+    assert!(t_inv(&al.region_tracker, post, N), "a region that still contains a suitable free block is never reported full");
+    core::mem::forget(r);
+    core::mem::forget(state);
+}
+
+const MAX_REGIONS_CAP: u32 = 0x0010_0000;
+
+// @harness props=C14 tier=quick timeout=2400 mem=24 stubbing=1 replay=scenario:page_alter
+// @desc allocate_helper_retry (region selection through the region tracker) on a one-region database from ANY allocator state satisfying R and ANY tracker state satisfying T (optimistic: a region with a free block of order >= o is not marked full at o): a block is handed out iff the region has an aligned free block of that order; a refusal changes nothing; afterwards T still holds - a region that contains a suitable free block is never reported full
+// @functions TransactionalMemory::allocate_helper_retry, RegionTracker::{find_free,mark_full}, BtreeBitmap::{find_first_unset,set,update_to_root}, BuddyAllocator::{alloc,alloc_inner}
+// @bound one region of 13 (resp. 16) pages, capacity 16, 5 tracked orders (the real tracker has 21), tracker bitmaps with the real 4-level shape; allocator words, tracker bits and the order arbitrary; allocation policy Default (alloc); alloc_lowest is outside
+// @stubs alloc::fmt::format -> empty
+#[kani::proof]
+#[kani::unwind(20)]
+#[kani::stub(alloc::fmt::format, hh::no_format)]
+fn c14_tracker_alloc_path_n13() {
+    retry_case::<13>();
+}
+
+// @harness props=C14 tier=thorough timeout=3600 mem=32 stubbing=1 replay=scenario:page_alter
+// @desc as c14_tracker_alloc_path_n13 for a full 16-page region
+// @functions TransactionalMemory::allocate_helper_retry, RegionTracker::{find_free,mark_full}
+// @bound one region of 16 pages
+// @stubs alloc::fmt::format -> empty
+#[kani::proof]
+#[kani::unwind(20)]
+#[kani::stub(alloc::fmt::format, hh::no_format)]
+fn c14_tracker_alloc_path_n16() {
+    retry_case::<16>();
+}
